@@ -78,6 +78,18 @@ def _pred(key, want, desc, v):
             if f["path"].endswith(".vhd") and re.search(rb"(?m)^[ \t]+\r?$", base64.b64decode(f["b64"])):
                 return bool(want)
         return not want
+    if key == "unclassified_token_is_other_whitespace":
+        import ast
+
+        w = (v.get("observed") or {}).get("what") or ""
+        if not w.startswith("unclassified token "):
+            return not want
+        try:
+            tok = ast.literal_eval(w[len("unclassified token ") :])
+        except Exception:
+            return not want
+        ok = isinstance(tok, str) and tok != "" and tok.isspace() and " " not in tok and "\t" not in tok
+        return ok == bool(want)
     raise KeyError("unknown signature predicate %r" % key)
 
 
